@@ -19,6 +19,10 @@
         invariant and no push overflows), under ONE hypothesis that is not proved here: every code
         position the UNLIMITED run reaches is an instruction boundary (control-flow safety of the
         engine without a limit: C10's frame discipline of the two stacks).
+        UPDATE (end of this file): the hypothesis is discharged for every program the writer emits --
+        C13_limit_dichotomy_compiled (via a verified bytecode verifier: C13_limit_dichotomy_typed,
+        C13_every_compiled_program_is_accepted); C13_limit_dichotomy_partial remains the statement for
+        ARBITRARY programs.
      "the Regexp stays fully usable afterwards" is C12's runner_ok_preserved, not restated here. *)
 From Verif Require Import Base.Prelude Model.Tree Model.Spec Model.VM Model.Writer Gen.RunnerGen
   Proofs.VMLimitProofs Proofs.VMLimitSimProofs Proofs.VMCapacityProofs.
@@ -170,3 +174,147 @@ Example C13_witness_weight :
   cp_dec (codes c13_prog) = [(0, 23); (2, 31); (3, 3); (6, 9); (8, 32); (11, 40)] /\
   cp_need (codes c13_prog) 0 = 16 /\ trackcount c13_prog * G_ensure_factor = 16.
 Proof. vm_compute. repeat split; reflexivity. Qed.
+
+(* ---- the dichotomy for programs compiled from supported trees (corollary of C01's compile_correct2) ----
+   C13_limit_dichotomy_partial above needs control-flow safety of EVERY state the unlimited engine can reach
+   from any state at code position 0.  For the program the writer emits for a supported2 tree the unlimited
+   run of every attempt is known (C01_compile_correct2_top_partial), and the dichotomy follows for the whole
+   scan, stack capacities carried from attempt to attempt:
+     ErrBacktrackingStackLimit (only if 0 <= L), or the same result as the unlimited scan, or both out of fuel;
+     in particular never a fault, and the unlimited scan itself never faults.
+   What is left of the hypothesis ([_partial]): CompileTotal.path_ok on the unbounded path of each start
+   position (instruction boundaries, grouping stack two words below its initial size) -- decidable per
+   instance (CompileLimit.mon_steps); enough reference fuel at every start position. *)
+From Verif Require Import Proofs.SpecBoundsProofs Proofs.CompileDefs Proofs.CompileBalDefs
+  Proofs.CompileTotal Proofs.CompileLimit Proofs.CompileLimitTop.
+
+Theorem C13_dichotomy_for_supported_partial :
+  forall (e : env) (p : program), 0 <= trackcount p -> track_count (codes p) <= trackcount p -> tlen e <= INF ->
+  forall fuel o body,
+  let root := NCapture o 0 (-1) body in
+  codes p = fst (compile cfg0 root) -> strings p = snd (compile cfg0 root) ->
+  supported2 root = true -> groups_ok2 (capsize p) root -> Z.of_nat fuel <= INF ->
+  (forall t, 0 <= t <= tlen e -> exists r, attempt e fuel root t = Ok r) ->
+  (forall t, 0 <= t <= tlen e -> path_ok e p (a0 p t)) ->
+  forall L vfuel rtl start prevlen, 0 <= start <= tlen e ->
+    let r1 := vm_find e p L vfuel rtl start prevlen in
+    let r2 := vm_find e p (-1) vfuel rtl start prevlen in
+    (r1 = Err E_StackLimit /\ 0 <= L) \/
+    match r1, r2 with
+    | Ok a, Ok b => same_result a b
+    | Fuel, Fuel => True
+    | _, _ => False
+    end.
+Proof. exact compile_find_dichotomy_partial. Qed.
+Print Assumptions C13_dichotomy_for_supported_partial.
+
+(* the same for ANY program whose unbounded attempt paths are known (no compiler involved) *)
+Theorem C13_dichotomy_along_known_paths :
+  forall (e : env) (p : program), 0 <= trackcount p ->
+  cp_need (codes p) 0 <= trackcount p * G_ensure_factor ->
+  forall L w0 vfuel rtl start prevlen, code_at p 0 = Some w0 -> all_paths e p -> 0 <= start <= tlen e ->
+  scan_out L (vm_find e p L vfuel rtl start prevlen) (vm_find e p (-1) vfuel rtl start prevlen).
+Proof. intros e p Htc Hw L w0 vfuel rtl start prevlen. exact (lim_find e p Htc Hw L w0 vfuel rtl start prevlen). Qed.
+Print Assumptions C13_dichotomy_along_known_paths.
+
+(* ---- the dichotomy WITHOUT a control-flow hypothesis, for every program the static verifier accepts ----
+   CompileCfSafe.tyck_auto p is a decidable check of the program alone (a bytecode verifier: a shape of the
+   grouping stack for every instruction boundary, every instruction consistent with it).  Its soundness
+   (cf_sound: a frame-typing invariant preserved by every opcode in the three modes Forward / Back / Back2)
+   gives control-flow safety of every run from a fresh state, hence, with the capacity argument above:
+   under any limit the scan is ErrBacktrackingStackLimit or agrees with the unlimited scan in every outcome.
+   Every input, every fuel, no compile_correct.  For compiled programs the weight hypothesis is the theorem
+   C13_compiled_push_weight.  Leg c01-frag: the verifier accepts 100% of the real programs of the corpus
+   (full and quick); that it accepts EVERY program the writer emits is not proved here. *)
+From Verif Require Import Proofs.CompileCfSafe Proofs.CompileTyped.
+
+Theorem C13_limit_dichotomy_typed :
+  forall e p L fuel rtl start prevlen,
+    cp_need (codes p) 0 <= trackcount p * G_ensure_factor ->
+    tyck_auto p = true ->
+    let r1 := vm_find e p L fuel rtl start prevlen in
+    let r2 := vm_find e p (-1) fuel rtl start prevlen in
+    r1 = Err E_StackLimit \/
+    match r1, r2 with
+    | Ok a, Ok b => same_result a b
+    | Err c, Err c' => c = c'
+    | Crash w, Crash w' => w = w'
+    | Fuel, Fuel => True
+    | _, _ => False
+    end.
+Proof. exact typed_limit_dichotomy. Qed.
+Print Assumptions C13_limit_dichotomy_typed.
+
+Theorem C13_limit_dichotomy_compiled_typed :
+  forall c root strs cs e L fuel rtl start prevlen,
+  let code := fst (compile c root) in
+  let p := {| codes := code; strings := strs; trackcount := track_count code; capsize := cs |} in
+  tyck_auto p = true ->
+  let r1 := vm_find e p L fuel rtl start prevlen in
+  let r2 := vm_find e p (-1) fuel rtl start prevlen in
+  r1 = Err E_StackLimit \/
+  match r1, r2 with
+  | Ok a, Ok b => same_result a b
+  | Err c, Err c' => c = c'
+  | Crash w, Crash w' => w = w'
+  | Fuel, Fuel => True
+  | _, _ => False
+  end.
+Proof. exact typed_limit_dichotomy_compiled. Qed.
+Print Assumptions C13_limit_dichotomy_compiled_typed.
+
+(* the non-vacuity program of this file is accepted by the verifier *)
+Example C13_witness_typed : tyck_auto c13_prog = true.
+Proof. vm_compute. reflexivity. Qed.
+
+(* ---- the first sentence of C13 for EVERY program the writer emits, no hypothesis ----
+   Proofs/CompileTyEmit.v (compiled_tyck): every emitted program -- any tree, any writer configuration (slot map,
+   quick program) -- is accepted by the verifier; with C13_compiled_push_weight and C13_limit_dichotomy_typed:
+   under any limit the scan is ErrBacktrackingStackLimit or agrees with the unlimited scan in every outcome
+   (result, error, crash reason, fuel exhaustion).  Every input, every fuel.  This discharges the control-flow
+   hypothesis of C13_limit_dichotomy_partial for compiled programs (TrackCount as counted on the code, which
+   is what syntax.Write stores). *)
+From Verif Require Import Proofs.CompileTyEmit Proofs.CompileSafe.
+
+Theorem C13_limit_dichotomy_compiled :
+  forall c root strs cs e L fuel rtl start prevlen,
+  let code := fst (compile c root) in
+  let p := {| codes := code; strings := strs; trackcount := track_count code; capsize := cs |} in
+  let r1 := vm_find e p L fuel rtl start prevlen in
+  let r2 := vm_find e p (-1) fuel rtl start prevlen in
+  r1 = Err E_StackLimit \/
+  match r1, r2 with
+  | Ok a, Ok b => same_result a b
+  | Err c, Err c' => c = c'
+  | Crash w, Crash w' => w = w'
+  | Fuel, Fuel => True
+  | _, _ => False
+  end.
+Proof. exact compiled_limit_dichotomy. Qed.
+Print Assumptions C13_limit_dichotomy_compiled.
+
+Theorem C13_every_compiled_program_is_accepted :
+  forall c root p, codes p = fst (compile c root) -> track_count (codes p) <= trackcount p ->
+  exists sh, tyck p sh = true.
+Proof. exact compiled_tyck. Qed.
+Print Assumptions C13_every_compiled_program_is_accepted.
+
+(* ... and for supported trees the unlimited scan itself never faults: both scans return, or both run out of fuel *)
+Theorem C13_dichotomy_for_supported :
+  forall (e : env) (p : program), 0 <= trackcount p -> track_count (codes p) <= trackcount p -> tlen e <= INF ->
+  forall fuel o body,
+  let root := NCapture o 0 (-1) body in
+  codes p = fst (compile cfg0 root) -> strings p = snd (compile cfg0 root) ->
+  supported2 root = true -> groups_ok2 (capsize p) root -> Z.of_nat fuel <= INF ->
+  (forall t, 0 <= t <= tlen e -> exists r, attempt e fuel root t = Ok r) ->
+  forall L vfuel rtl start prevlen, 0 <= start <= tlen e ->
+    let r1 := vm_find e p L vfuel rtl start prevlen in
+    let r2 := vm_find e p (-1) vfuel rtl start prevlen in
+    (r1 = Err E_StackLimit /\ 0 <= L) \/
+    match r1, r2 with
+    | Ok a, Ok b => same_result a b
+    | Fuel, Fuel => True
+    | _, _ => False
+    end.
+Proof. exact compile_find_dichotomy. Qed.
+Print Assumptions C13_dichotomy_for_supported.
